@@ -106,6 +106,11 @@ namespace RecInt
         return b;
     }
 
+    template <size_t K, typename T> inline __RECINT_IS_ARITH(T, rint<K>&) operator|=(rint<K>& b, const T& c) {
+        b.Value |= c;
+        return b;
+    }
+
     // Operator ^=
     template <size_t K> inline rint<K>& operator^=(rint<K>& b, const rint<K>& c) {
         b.Value ^= c.Value;
@@ -139,6 +144,19 @@ namespace RecInt
     // Operator ^
     template <size_t K> inline rint<K> operator^(const rint<K>& b, const rint<K>& c) {
         return rint<K>(b.Value ^ c.Value);
+    }
+
+    // Operators | ^ & with a built-in scalar
+    template <size_t K, typename T> inline __RECINT_IS_ARITH(T, rint<K>) operator|(const rint<K>& b, const T& c) {
+        rint<K> a(b);
+        return (a |= c);
+    }
+    template <size_t K, typename T> inline __RECINT_IS_ARITH(T, rint<K>) operator^(const rint<K>& b, const T& c) {
+        rint<K> a(b);
+        return (a ^= c);
+    }
+    template <size_t K, typename T> inline __RECINT_IS_ARITH(T, T) operator&(const rint<K>& b, const T& c) {
+        return (b.Value & c);
     }
 
         // Shifts
